@@ -74,6 +74,10 @@ class ResurrectorSink(ClientMessageSink):
     self._log.info('Attempting to reopen faulted channel')
     while True:
       gevent.sleep(wait_interval)
+      if not self._down_on:
+        # Closed while waiting: Close() kills this greenlet asynchronously, so it
+        # may still get to run once after the sink has been closed.
+        return
       now = time.time()
       down_time, last_attempt = now - last_attempt, now
       self._varz.time_failed(down_time)
